@@ -32,7 +32,8 @@ LEVEL = {'text': 'Machine-checked theorems, for ALL images and header tables sat
                  'of every chain is free), counts, classes and byte orders; when only the count is too large and the '
                  'chain\'s last entry has a zero link the walk yields exactly the entries up to it; the version-symbol '
                  'table yields exactly one '
-                 '(index incl. hidden bit, symbol name) per dynamic symbol for any table length and stride; get_version '
+                 '(index incl. hidden bit, symbol name) per table entry for any table length and stride, the symbol '
+                 'table holding at least as many symbols; get_version '
                  'returns the first entry in link order carrying the index or None; has_indexes (first and memoised call) '
                  'equals "some auxiliary has a non-zero index". Record layouts and the versym Enum table are regenerated '
                  'from the live construct trees and proved equal to the standard tables; the hand model is pinned to the '
@@ -51,7 +52,8 @@ RULE = ('cases: version-definition / version-requirement sections with 0..14 ent
         'an "ended" stream (zero next link on an entry, sh_info claiming 1..40 more entries; certified by the '
         '*_section_ended_wf predicate, iter_versions compared with the ended_at_zero_link theorem, the rest with the '
         'model); '
-        'version-symbol tables of 0..300 symbols with arbitrary index/hidden bit, reserved values, strides >= entry size; '
+        'version-symbol tables of 0..300 symbols with arbitrary index/hidden bit, reserved values, strides >= entry size, '
+        'over symbol tables of the same or a larger (0..4 more) symbol count; '
         'both classes and byte orders, sections and header table in random file order at unaligned offsets, names 0..130 '
         'bytes of 1-4 byte UTF-8; plus a malformed stream (zero counts, counts running into garbage, zero links on '
         'non-last entries / auxiliaries counted several times, truncated files, '
@@ -342,7 +344,9 @@ def _gen_versym_case(rng, big):
              rng.choice([0, wmax - 1, rng.randrange(wmax)]), rng.choice([0, 8, rng.randrange(wmax)]), nstr]
         entries.append([v, s])
     vs_bg = _garbage(rng, n * vs_ent)
-    sym_bg = _garbage(rng, n * sym_ent)
+    # the symbol table may hold more symbols than the version table has entries (garbage symbols behind)
+    sym_extra = 0 if rng.random() < 0.7 else rng.randint(1, 4)
+    sym_bg = _garbage(rng, (n + sym_extra) * sym_ent)
     symtype = SHT['dynsym'] if rng.random() < 0.8 else SHT['symtab']
     plan = _file_plan(rng, ['shstr', 'target', 'symtab', 'strtab'])
     return [le, is64, machine, entries, vs_ent, sym_ent, vs_bg, sym_bg, strtab, symtype, plan, ['none']]
@@ -778,7 +782,7 @@ def _evaluate(ctx, cases):
                 _overlay(sbuf, i * sym_ent, e[2 * i + 1][1])
             n = len(entries)
             vsize = n * vs_ent
-            ssize = n * sym_ent
+            ssize = max(n, len(sym_bg) // sym_ent) * sym_ent      # whole symbols, at least one per version entry
             if mal[0] == 'vs_extra':
                 vbuf += _fixed_garbage(mal[1] * vs_ent)
                 vsize = len(vbuf)
@@ -835,6 +839,7 @@ def _evaluate(ctx, cases):
             nrec = len(c[3])
             ctx.bump('versym_len', nrec if nrec < 3 else '3-12' if nrec <= 12 else '13-60' if nrec <= 60 else '100+')
             ctx.bump('versym_strides', '%d/%d' % (c[4], c[5] - (24 if c[1] else 16)))
+            ctx.bump('versym_symbols_beyond_table', max(0, len(c[7]) // c[5] - nrec))
         malformed = kind.endswith('_malformed')
         ended = kind.endswith('_ended')
         in_domain = wf and not malformed
